@@ -7,6 +7,7 @@
  * channel errors at every position, the allocator fails at every index.
  * ASan/UBSan watch everything else. */
 #include "rp_common.h"
+#include <inttypes.h>
 
 const char *harness_name = "c09_regp_safety";
 
@@ -498,9 +499,138 @@ u_stream(uint64_t idx, void *arg)
                             "allocation failure and channel error, drained by the documented recv/process/free loop");
 }
 
+/* ---- W6: one frame of about 2^31 / 2^32 octets, really delivered ----
+ * The stream is generated (length prefix, a write request's header, zero octets, then an ordinary read request) and
+ * handed over through a one-MiB window, so that two to four GiB pass in a second or two. The frame is too large
+ * for any receive block: it is drained, answered with a receive-overflow response, and the request behind it is
+ * served as usual. */
+static struct giant {
+    unsigned char head[40], tail[64];
+    size_t nhead, ntail;
+    uint64_t body, pos;
+    unsigned long calls;
+} G;
+static unsigned char giant_win[1u << 20];
+
+static ssize_t
+giant_chunk(void *drv, void *out, size_t n)
+{
+    (void)drv;
+    unsigned char *o = out;
+    const uint64_t total = G.nhead + G.body + G.ntail;
+    G.calls++;
+    if (n == 0)
+        return -EINVAL;
+    if (G.pos >= total)
+        return -ENODATA;
+    size_t done = 0;
+    while (done < n && G.pos < total) {
+        if (G.pos < G.nhead) {
+            o[done++] = G.head[G.pos++];
+        } else if (G.pos < G.nhead + G.body) {
+            uint64_t k = G.nhead + G.body - G.pos;
+            if (k > n - done)
+                k = n - done;
+            memset(o + done, 0, (size_t)k);
+            done += (size_t)k;
+            G.pos += k;
+        } else {
+            o[done++] = G.tail[G.pos++ - G.nhead - G.body];
+        }
+    }
+    return (ssize_t)done;
+}
+
+static ByteBuffer
+giant_getbuffer(Source *s)
+{
+    (void)s;
+    ByteBuffer b;
+    byte_buffer_use(&b, giant_win, sizeof giant_win);
+    return b;
+}
+
+static void
+u_giant(uint64_t idx, void *arg)
+{
+    (void)arg;
+    static const uint64_t lens[] = { 0x80000000ull, 0x7ffffff0ull, 0x80000401ull, 0xfffffff0ull };
+    static const size_t bs[] = { 128, 80, 365, 96 };
+    const uint64_t L = lens[idx % 4];
+    const size_t B = bs[idx % 4], cap = B - sizeof(RPFrame);
+    window = 0;
+    fresh(0, (int)(idx & 1), B);
+    memset(&G, 0, sizeof G);
+    /* length prefix */
+    for (uint64_t v = L;;) {
+        unsigned char c = (unsigned char)(v & 0x7f);
+        v >>= 7;
+        G.head[G.nhead++] = v ? (unsigned char)(c | 0x80) : c;
+        if (!v)
+            break;
+    }
+    unsigned char raw[64], pl[4] = { 0, 0, 0, 0 };
+    const uint16_t seq = (uint16_t)(0x4000 + idx);
+    const uint32_t addr = 0x2000u + (uint32_t)idx;
+    /* header of an 8-bit write request; what it says about its block size is beside the point */
+    size_t hn = mk_request(raw, 0, RT_WRITE_REQ, 0, seq, addr, 4, pl, 4);
+    memcpy(G.head + G.nhead, raw, 12);
+    G.nhead += 12;
+    (void)hn;
+    G.body = L - 12;
+    size_t rn = mk_request(raw, 0, RT_READ_REQ, (int)(idx & 1), (uint16_t)(seq + 1), addr + 16, 1, NULL, 0);
+    G.ntail = rp_wire(0, raw, rn, G.tail);
+    Source src;
+    Sink snk;
+    chunk_source_init(&src, giant_chunk, &G);
+    src.ext.getbuffer = giant_getbuffer;
+    chunk_sink_init(&snk, rp_sink_chunk, &H);
+    H.out_octet = 0;
+    H.out_maxper = 0;
+    regp_use_channel(&H.p, RP_EP_TCP, src, snk);
+    char key[80], ctx[160];
+    snprintf(key, sizeof key, "workload=giant transport=tcp");
+    snprintf(ctx, sizeof ctx, "block=%zu (capacity %zu) frame of %" PRIu64 " octets delivered through a 1 MiB window", B, cap, L);
+    VH_CASE4(idx, B, 0, 0);
+    struct obs o;
+    exchange(&o, key, ctx);
+    VH_COUNT("giant: frame of 2^31 octets or more delivered in full");
+    if (o.rc_recv < 0)
+        vh_fail("oversized-frame-channel-error", key, "%s: regp_recv rc=%d although the source delivered every octet (%lu calls, stream position %" PRIu64 ")",
+                ctx, o.rc_recv, G.calls, G.pos);
+    else {
+        if (H.ncalls != 0)
+            vh_fail("oversized-frame-executed", key, "%s", ctx);
+        if (o.errid != ENOMEM)
+            vh_fail("oversized-frame-error-id", key, "%s: error.id=%d expected ENOMEM", ctx, o.errid);
+        int ok = o.nf == 1 && !o.rerr[0] && o.r[0].type == RT_WRITE_RESP && o.r[0].meta == 4 && o.r[0].seq == seq && o.r[0].addr == addr;
+        if (!ok)
+            vh_fail("no-receive-overflow-response", key, "%s: %d reply frames: %s", ctx, o.nf, vh_hex(H.out, H.out_n > 40 ? 40 : H.out_n));
+        else if (o.r[0].plen == 4) {
+            unsigned char be[4];
+            rp_be32(be, (uint32_t)cap);
+            if (memcmp(be, o.r[0].payload, 4) != 0)
+                vh_fail("receive-overflow-size", key, "%s: payload %s", ctx, vh_hex(o.r[0].payload, 4));
+        }
+    }
+    if (G.pos != G.nhead + G.body)
+        vh_fail("oversized-frame-consumption", key, "%s: source position %" PRIu64 " after the round, the frame ends at %" PRIu64, ctx, G.pos, (uint64_t)G.nhead + G.body);
+    else {
+        /* the request behind it */
+        exchange(&o, key, ctx);
+        if (o.rc_recv < 0 || o.errid != 0 || H.ncalls != 1 || H.call[0].n != 1 || o.nf != 1 || o.rerr[0] || o.r[0].type != RT_READ_RESP || o.r[0].meta != 0
+            || o.r[0].seq != (uint16_t)(seq + 1))
+            vh_fail("request-behind-oversized-frame", key, "%s: read request behind it: rc=%d error.id=%d backend calls=%d reply frames=%d %s", ctx,
+                    o.rc_recv, o.errid, H.ncalls, o.nf, vh_hex(H.out, H.out_n > 40 ? 40 : H.out_n));
+    }
+    vh_sig(0x09500000ull ^ idx);
+}
+
 void
 harness_run(void)
 {
+    for (uint64_t i = 0; i < 4; i++)
+        vh_unit("giant", i, u_giant, NULL);
     for (uint64_t i = 0; i < 28 + 70; i++)
         vh_unit("lengths", i, u_lengths, NULL);
     for (uint64_t i = 0; i < 28; i++)
@@ -511,6 +641,7 @@ harness_run(void)
         vh_unit("chanerr", i, u_chanerr, NULL);
     for (uint64_t i = 0; i < (vh_tier ? 200000u : 2500u); i++)
         vh_unit("stream", i, u_stream, NULL);
+    vh_require("giant: frame of 2^31 octets or more delivered in full");
     static const char *req[] = { "frame larger than the receive block", "empty frame", "frame shorter than a header",
                                  "frame that just fits is executed", "read that cannot fit", "read that fits",
                                  "read in the zone where the header accounting decides (either answer accepted)",
